@@ -35,11 +35,11 @@ CITES = ['paperA', 'paperB', 'paperC']
 # positions in a molecule dump
 N_, E_, I_, C_, X_, F_, L_ = range(7)
 
-# genuine defects of the real code met by this check (see the final report of the extension round); while an id is
-# not registered in known_findings.json its cases are counted and noted but raise no alarm
-F_CLEAR = 'F-C12-4'      # Molecule.clear() keeps the interactions of the removed atoms
-F_SELF = 'F-C12-5'       # m.merge_molecule(m) raises RuntimeError after adding one atom
-F_LOG = 'F-C12-6'        # log entries keep removed atoms; a later merge raises KeyError half-way / points to another atom
+# F-C12-4 (clear kept the interactions) and F-C12-5 (self-merge failed half-way) are repaired in /repo (f707daa, 941d2d8):
+# their inputs are ordinary cases with the full oracle now.  F-C12-6 is an OBSERVATION outside the text of C12 (log entries
+# are not maintained by remove_node; a later merge of such a molecule raises KeyError half-way): its cases are counted and
+# noted, not enforced.
+F_LOG = 'F-C12-6'
 KNOWN_IDS = {k['id'] for k in chk.known if k.get('status') == 'known'}
 
 
@@ -169,8 +169,6 @@ def apply_sys(pool, systems, op):
             return 'valueerror'
         except KeyError:
             return 'keyerror'
-        except RuntimeError:
-            return 'runtimeerror'
     elif kind == 'mergechains':
         try:
             MergeChains(chains=list(op[2]), all_chains=bool(op[3])).run_system(system)
@@ -329,10 +327,7 @@ def _apply(pool, op, systems=None):
                 j = op[2]
                 if j >= len(pool):
                     return 'badindex'
-                try:
-                    m.merge_molecule(pool[j])
-                except RuntimeError:
-                    return 'runtimeerror'
+                m.merge_molecule(pool[j])
             else:
                 raise AssertionError(kind)
     except KeyError:
@@ -438,12 +433,6 @@ def gen_version_template(rng, v):
     return ['n', rng.choice([v, 0, 1, None])]
 
 
-def order_dependent_selfmerge(mols):
-    """a molecule (the merge of `mols`) with exactly one atom and interactions of two or more types merged into itself:
-    what happens depends on the order of the type dict, which the model does not carry"""
-    return sum(len(m) for m in mols) == 1 and len({t for m in mols for t, its in m.interactions.items() if its}) >= 2
-
-
 def gen_sys_op(rng, pool, systems):
     ns, n = len(systems), len(pool)
     if ns == 0 or (ns < 3 and rng.random() < 0.07):
@@ -454,18 +443,23 @@ def gen_sys_op(rng, pool, systems):
         r = 0.0              # fill the system first
     if r < 0.30:
         # mostly molecules that are not yet in the system; one in ten is listed a second time (MergeAllMolecules then
-        # merges the first molecule into itself, MergeChains merges a molecule twice)
+        # merges the first molecule with a snapshot of itself, MergeChains merges a molecule twice)
         cand = [k for k in range(n) if s >= ns or all(pool[k] is not m for m in systems[s].molecules)]
         if cand and rng.random() < 0.9:
             return ('addmol', s, rng.choice(cand))
         return ('addmol', s, rng.randrange(n + 1))
     if r < 0.42 and n < 9:
         return ('copysys', s)
+    if s < ns:
+        # keep molecules small: a member listed k times doubles the first molecule k times
+        mols, size = systems[s].molecules, 0
+        for k, x in enumerate(mols):
+            size += size if (k and x is mols[0]) else len(x)
+        if size > 80 and mols:
+            big = max(range(n), key=lambda k: len(pool[k]))
+            return ('rmnodes', big, list(pool[big].nodes)[::2], rng.random() < 0.5)
     if r < 0.68 or n >= 12:          # every successful MergeChains adds a molecule: keep the pool small
-        mols = systems[s].molecules if s < ns else []
-        rep = [k for k, x in enumerate(mols[1:], 1) if x is mols[0]]
-        if not (rep and order_dependent_selfmerge(mols[:rep[0]])):
-            return ('mergeall', s)
+        return ('mergeall', s)
     rr = rng.random()
     if rr < 0.3:
         return ('mergechains', s, [], True)
@@ -642,17 +636,10 @@ def gen_op(rng, pool, systems=None):
         j = (i + 1 + rng.randrange(n - 1)) % n
     if rng.random() < 0.04:
         j = i                      # merge a molecule into itself
-    if j == i and m is not None and order_dependent_selfmerge([m]):
-        return ('mkedgesall', i)   # (see Mol.selfMerge: the outcome would depend on the order of the type dict)
     if m is not None and j < n and len(m) + len(pool[j]) > 60:
         # keep molecules small (repeated merges double the size)
         return ('rmnodes', i, list(m.nodes)[::2], rng.random() < 0.5)
     return ('merge', i, j)
-
-
-def dangling(m):
-    keys = set(m.nodes)
-    return any(a not in keys for its in m.interactions.values() for it in its for a in it.atoms)
 
 
 def gen_sequence(rng, length):
@@ -662,8 +649,6 @@ def gen_sequence(rng, length):
         op = gen_op(rng, pool, systems)
         ops.append(op)
         apply(pool, op, systems)
-        if op[0] == 'clear' and op[1] < len(pool) and dangling(pool[op[1]]):
-            break                  # F-C12-4: the history ends where the real code has left the reachable states
     return ops
 
 
@@ -819,26 +804,17 @@ def system_oracle(op, out, before, after, sys_before, sys_after, ff_before, ff_a
             errs.append(('System.copy: force field of the copy', None))
     elif kind == 'mergeall' and idxs:
         i0 = idxs[0]
-        want, want_out, selfmerged = before[i0], 'ok', False
+        want, want_out = before[i0], 'ok'
         for k in idxs[1:]:
-            if k == i0:
-                # the first molecule is listed again: at that point it is merged into itself (F-C12-5)
-                n = len(want[N_])
-                if n >= 2 or (n == 1 and want[I_]):
-                    want_out, selfmerged = ('runtimeerror' if n >= 2 else 'keyerror'), True
-                    break
+            # the first molecule listed again is merged with a snapshot of what it is at that point
             nxt, o = fold_expect(want, [want if k == i0 else before[k]])
             if o != 'ok':
                 want, want_out = None, o
                 break
             want = nxt
         if out != want_out:
-            errs.append(('MergeAllMolecules: outcome %s, expected %s' % (out, want_out),
-                         F_SELF if selfmerged else F_LOG if 'keyerror' in (out, want_out) else None))
-        if selfmerged:
-            errs.append(('MergeAllMolecules on a system that lists its first molecule twice: %s, the first molecule has %d atoms '
-                         'instead of %d' % (out, len(after[i0][N_]), 2 * len(want[N_])), F_SELF))
-        elif out == 'ok' and want is not None:
+            errs.append(('MergeAllMolecules: outcome %s, expected %s' % (out, want_out), F_LOG if 'keyerror' in (out, want_out) else None))
+        elif out == 'ok':
             if sys_after[s] != [i0]:
                 errs.append(('MergeAllMolecules: the system does not hold exactly the first molecule afterwards', None))
             got = after[i0]
@@ -911,8 +887,7 @@ APPENDING = ('new', 'fromblock', 'buildblock', 'copy', 'subgraph', 'newsys', 'co
 
 def run_sequence(ops):
     """Run ops on the real code with the oracle evaluated after every op.
-    Returns (outs, dumps, errs) with errs = [(message, finding id or None)]; the history ends after a clear() that left
-    dangling interactions (F-C12-4), so len(outs) can be smaller than len(ops)."""
+    Returns (outs, dumps, errs) with errs = [(message, observation id or None)]."""
     pool, systems, outs, dumps, errs = [], [], [], [], []
 
     def err(step, op, msg, fid=None):
@@ -929,13 +904,8 @@ def run_sequence(ops):
         ff_after = [ff_name(s.force_field) for s in systems]
         dumps.append(enc(after) + ' ' + enc(sys_after) + ' ' + enc(ff_after))
         kind = op[0]
-        stop = False
         for e in check_consistency(pool):
-            if kind == 'clear':
-                err(step, op, e + ' (Molecule.clear() removed the atoms and kept the interactions)', F_CLEAR)
-                stop = True
-            else:
-                err(step, op, e)
+            err(step, op, e)
         for k, (b, a) in enumerate(zip(before, after)):
             if [r[0] for r in a[N_]] != [r[0] for r in b[N_]] and kind in IN_PLACE_ATOMS_KEPT:
                 err(step, op, 'changed the atoms of molecule %d' % k)
@@ -954,13 +924,10 @@ def run_sequence(ops):
                     err(step, op, 'on molecule %s changed molecule %d' % (target, k))
         # theorem error_no_change / sstep_error: a failing operation changes nothing (add_or_replace_interaction
         # included: it can only fail in add_interaction, before the citations are touched).  Exceptions: MergeAllMolecules
-        # (has merged the operands before the failing one), a molecule merged into itself (F-C12-5), a merge that fails in
-        # its log-entry loop (F-C12-6).
+        # (has merged the operands before the failing one), a merge that fails in its log-entry loop (F-C12-6).
         if out != 'ok' and kind != 'mergeall' and (after[:len(before)] != before or len(after) != len(before)):
             fid = None
-            if kind == 'merge' and out == 'runtimeerror':
-                fid = F_SELF
-            elif kind == 'merge' and out == 'keyerror':
+            if kind == 'merge' and out == 'keyerror':
                 fid = F_LOG
             err(step, op, 'failed with %s but changed the state' % out, fid)
         if out != 'ok' and sys_after != sys_before:
@@ -1028,8 +995,8 @@ def run_sequence(ops):
                         err(step, op, 'block building: citations / nrexcl / force field')
             if kind == 'clear' and b is not None:
                 chk.count('clear_%s' % ('with_interactions' if b[I_] else 'without_interactions'))
-                if a[N_] or a[E_]:
-                    err(step, op, 'clear() left atoms or bonds')
+                if a[N_] or a[E_] or a[I_]:
+                    err(step, op, 'clear() left atoms, bonds or interactions')
                 if a[C_:] != b[C_:]:
                     err(step, op, 'clear() changed citations / nrexcl / force field / log entries')
             if kind in ('mkedges', 'mkedgesall') and b is not None:
@@ -1136,10 +1103,11 @@ def run_sequence(ops):
                 if stale:
                     chk.count('log_entry_mentions_removed_atom')
             # ---- merge_molecule ---------------------------------------------------------------------------------------
-            if kind == 'merge' and b is not None and op[2] < len(before) and op[1] != op[2]:
+            if kind == 'merge' and b is not None and op[2] < len(before):
+                # a molecule merged into itself is merged with a snapshot of itself: same clauses
                 a0, b0 = b, before[op[2]]
                 want_out = merge_outcome_expect(a0, b0)
-                chk.count('merge_%s%s' % (out, '_ff_mismatch' if a0[F_] != b0[F_] else '_with_logs' if b0[L_] else ''))
+                chk.count('%smerge_%s%s' % ('self' if op[1] == op[2] else '', out, '_ff_mismatch' if a0[F_] != b0[F_] else '_with_logs' if b0[L_] else ''))
                 if out != want_out:
                     err(step, op, 'outcome %s, expected %s' % (out, want_out), F_LOG if 'keyerror' in (out, want_out) else None)
                 if out == 'ok':
@@ -1171,32 +1139,10 @@ def run_sequence(ops):
                     keys0 = {r[0] for r in a0[N_]}
                     if any(k not in keys0 and k in ex['corr'].values() for _, _, fas in a0[L_] for fa in fas for _, k in fa):
                         chk.count('stale_log_entry_points_to_newcomer_atom')
-            if kind == 'merge' and b is not None and op[1] == op[2]:
-                n = len(b[N_])
-                chk.count('selfmerge_%s_%s' % (out, 'empty' if n == 0 else 'one_atom%s' % ('_with_interactions' if b[I_] else '') if n == 1 else 'two_or_more_atoms'))
-                if n == 0 or (n == 1 and not b[I_]):
-                    # these two cases work: the molecule is duplicated behind itself (no atom: only the log entries grow)
-                    want_out = merge_outcome_expect(b, b)
-                    if out != want_out:
-                        err(step, op, 'self-merge outcome %s, expected %s' % (out, want_out), F_LOG if 'keyerror' in (out, want_out) else None)
-                    if out == 'ok':
-                        ex = merge_expect(b, b)
-                        if a[N_] != ex['nodes'] or a[E_] != ex['edges'] or sorted(map(repr, a[I_])) != ex['inters'] or a[C_] != ex['cites'] \
-                                or a[L_] != ex['logs']:
-                            err(step, op, 'self-merge: the result is not the molecule followed by its shifted duplicate')
-                else:
-                    # the property asks for a duplicate of the molecule behind itself; what the code does instead is pinned
-                    # by the correspondence with the model (Mol.selfMerge)
-                    err(step, op, 'a molecule merged into itself: outcome %s, %d atoms afterwards instead of %d'
-                        % (out, len(a[N_]), 2 * n), F_SELF)
-                    if a[N_][:n] != b[N_] or a[E_] != b[E_] or a[I_][:0] != [] or a[C_:] != b[C_:]:
-                        err(step, op, 'self-merge changed existing atoms / bonds / bookkeeping')
         try:
             clauses()
         except Exception as exc:  # an inconsistent state the clauses were not written for
             err(step, op, 'the oracle could not be evaluated on this state: %r' % (exc,))
-        if stop:
-            break
     return outs, dumps, errs
 
 
@@ -1211,7 +1157,7 @@ def load_corpus():
 
 def attribute(errs):
     """errs = [(msg, finding id | None)] -> (messages to report, finding id).  An error without finding signature always
-    wins; errors that belong to a finding not (yet) registered in known_findings.json are counted and noted only."""
+    wins; errors that belong to an observation that is not registered in known_findings.json (F-C12-6) are counted and noted only."""
     real = [m for m, f in errs if f is None]
     if real:
         return real, None
@@ -1243,7 +1189,6 @@ all_lines = []
 per_seq = []
 for ops in sequences:
     outs, dumps, errs = run_sequence(ops)
-    ops = ops[:len(outs)]
     lines = ['x' + 'reset'.encode().hex()] + [op_line(op) for op in ops]
     per_seq.append((ops, outs, dumps, errs, len(all_lines), len(lines)))
     all_lines.extend(lines)
